@@ -532,6 +532,7 @@ struct Sqlite {
     account: zcash_client_sqlite::AccountUuid,
     /// model of the table: statuses of the rows persisted so far, oldest first
     rows: Vec<MigrationStatus>,
+    trips: usize,
 }
 
 type Net = zcash_protocol::local_consensus::LocalNetwork;
@@ -557,7 +558,73 @@ impl Sqlite {
         drop(db);
         let conn = rusqlite::Connection::open(&path).map_err(|e| e.to_string())?;
         rusqlite::vtab::array::load_module(&conn).map_err(|e| e.to_string())?;
-        Ok(Sqlite { _dir: dir, conn, account, rows: vec![] })
+        Ok(Sqlite { _dir: dir, conn, account, rows: vec![], trips: 0 })
+    }
+
+    /// `update_transaction` rewrites one row's life-cycle state in place; `cancel_migration` moves the
+    /// pending record to Cancelled (kept as history, nothing else changed) and classifies its rows.
+    fn update_then_cancel(&mut self, s: &MigrationState) -> Vec<String> {
+        use zcash_client_sqlite::pool_migration::orchard_ironwood::PoolMigrations;
+        use zcash_client_sqlite::util::SystemClock;
+        let mut bad = vec![];
+        let account = self.account;
+        let k = self.trips % s.transactions().len();
+        let row = &s.transactions()[k];
+        let new_state = match row.state() {
+            MigrationTxState::Proved => MigrationTxState::Broadcast { txid: row.txid() },
+            MigrationTxState::Broadcast { txid } => MigrationTxState::Mined { txid, height: real_h(23) },
+            MigrationTxState::Mined { txid, .. } => MigrationTxState::Broadcast { txid },
+            other => other,
+        };
+        let rebuild = |status: MigrationStatus, upd: Option<(usize, MigrationTxState)>| {
+            let txs = s
+                .transactions()
+                .iter()
+                .enumerate()
+                .map(|(j, t)| {
+                    MigrationTransaction::from_parts(
+                        t.id(), t.kind(), t.pczt().clone(), t.depends_on().clone(), t.scheduled_height(), t.expiry_height(),
+                        t.anchor_boundary(), t.txid(),
+                        match upd { Some((u, st)) if u == j => st, _ => t.state() },
+                        t.lock_owner(), t.unsatisfiable(), t.spend_nullifiers().clone(), t.broadcast_failure_at(),
+                    )
+                })
+                .collect();
+            MigrationState::from_parts(status, s.denominations().clone(), s.preparation().clone(), txs, s.anchor_bucket_interval(), s.replan_threshold())
+        };
+        let r = guarded(|| -> Result<_, String> {
+            let mut store = PoolMigrations::for_account(network(), SystemClock, &mut self.conn, account).map_err(|e| format!("{e:?}"))?;
+            store.update_transaction(row.id(), new_state).map_err(|e| format!("update: {e:?}"))?;
+            let after_update = store.get_migration().map_err(|e| format!("get: {e:?}"))?;
+            let outcome = store.cancel_migration().map_err(|e| format!("cancel: {e:?}"))?;
+            let got = store.get_migration().map_err(|e| format!("get: {e:?}"))?;
+            let latest = store.latest_migration().map_err(|e| format!("latest: {e:?}"))?;
+            let n = store.list_migrations().map_err(|e| format!("list: {e:?}"))?.len();
+            Ok((after_update, outcome, got, latest, n))
+        });
+        match r {
+            Err(p) => bad.push(format!("Persist:sqlite-panic:{p}")),
+            Ok(Err(e)) => bad.push(format!("Persist:sqlite-error:{e}")),
+            Ok(Ok((after_update, outcome, got, latest, n))) => {
+                if after_update != Some(rebuild(s.status(), Some((k, new_state)))) { bad.push("Persist:sqlite-update-transaction".into()) }
+                if got.is_some() { bad.push("Persist:sqlite-cancel-still-pending".into()) }
+                if latest != Some(rebuild(MigrationStatus::Cancelled, Some((k, new_state)))) { bad.push("Persist:sqlite-cancel-record".into()) }
+                if n != self.rows.len() { bad.push("Persist:sqlite-cancel-history-rows".into()) }
+                let ids = |f: &dyn Fn(MigrationTxState) -> bool| -> Vec<MigrationTransferId> {
+                    s.transactions().iter().enumerate().filter(|(j, t)| f(if *j == k { new_state } else { t.state() })).map(|(_, t)| t.id()).collect()
+                };
+                if outcome.in_flight() != ids(&|st| matches!(st, MigrationTxState::Broadcast { .. })).as_slice()
+                    || outcome.mined() != ids(&|st| matches!(st, MigrationTxState::Mined { .. })).as_slice()
+                    || outcome.released() != ids(&|st| !matches!(st, MigrationTxState::Broadcast { .. } | MigrationTxState::Mined { .. })).as_slice()
+                {
+                    bad.push("Persist:sqlite-cancel-outcome".into());
+                }
+            }
+        }
+        if let Some(p) = self.rows.iter().position(|st| !st.is_terminal()) {
+            self.rows[p] = MigrationStatus::Cancelled;
+        }
+        bad
     }
 
     /// Persists `s` and reads it back; returns the names of the broken persistence clauses.
@@ -593,6 +660,11 @@ impl Sqlite {
                 }
                 if n != self.rows.len() { bad.push(format!("Persist:sqlite-history-rows:{}!={}", n, self.rows.len())) }
             }
+        }
+        // Update and Cancel of MigrationStore.tla, now and then, on a pending record
+        self.trips += 1;
+        if !s.is_terminal() && bad.is_empty() && !s.transactions().is_empty() && self.trips % 5 == 0 {
+            bad.extend(self.update_then_cancel(s));
         }
         // at most one non-terminal migration per account, read straight from the table
         let terminal: Vec<String> = MigrationStatus::terminal().map(|s| format!("'{}'", s.wire_name())).collect();
